@@ -9,6 +9,7 @@ import (
 	"strings"
 	"testing"
 
+	"github.com/tikv/client-go/v2/config"
 	"github.com/tikv/client-go/v2/verifsim/simkit"
 )
 
@@ -48,12 +49,24 @@ func (Engine) Prepare(cfg simkit.RunConfig, scenario any) {
 		setThresholds(sc.Buf.Th, 0, 0)
 	case sc.Txn != nil:
 		setThresholds(sc.Txn.Th, sc.Txn.TTLMs, sc.Txn.FlushDelayMs)
+		if sc.Txn.AsyncBatchGet {
+			restoreCfg = config.UpdateGlobal(func(c *config.Config) { c.EnableAsyncBatchGet = true })
+		}
 	}
 	rand.Seed(int64(cfg.Seed)) // back-off jitter of the code under test (global math/rand)
 }
 
 // Cleanup implements simkit.Preparer.
-func (Engine) Cleanup(cfg simkit.RunConfig, scenario any) { clearThresholds() }
+func (Engine) Cleanup(cfg simkit.RunConfig, scenario any) {
+	clearThresholds()
+	if restoreCfg != nil {
+		restoreCfg()
+		restoreCfg = nil
+	}
+}
+
+// restoreCfg undoes the run's change of the global configuration.
+var restoreCfg func()
 
 // Execute implements simkit.Engine (runs inside the bubble).
 func (Engine) Execute(t *testing.T, cfg simkit.RunConfig, scenario any) *simkit.RunResult {
